@@ -175,7 +175,7 @@ func (q QuoteInfo) Unquote(s string) (string, error) {
 
 	buf := make([]byte, 0, 3*len(s)/2) // Try to avoid more allocations.
 	// Reject a closing delimiter at line start followed by more content.
-	if q.multiline && hasClosingDelimPrefix(s, q) && len(s) > int(q.numChar)+q.numHash {
+	if q.multiline && closesLineEarly(s, q) {
 		return "", errSyntax
 	}
 	stripNL := false
@@ -193,7 +193,7 @@ func (q QuoteInfo) Unquote(s string) (string, error) {
 				return "", err
 			}
 			// Reject a closing delimiter at line start followed by more content.
-			if q.multiline && hasClosingDelimPrefix(s, q) && len(s) > int(q.numChar)+q.numHash {
+			if q.multiline && closesLineEarly(s, q) {
 				return "", errSyntax
 			}
 			stripNL = true
@@ -254,6 +254,15 @@ func (q QuoteInfo) Unquote(s string) (string, error) {
 	}
 	// allow unmatched quotes if already checked.
 	return "", errUnmatchedQuote
+}
+
+// closesLineEarly reports whether the line at the start of s consists of
+// optional blanks and the closing delimiter followed by more content.
+// The scanner ends a multiline literal at such a delimiter, however the line
+// is indented, so the text that follows cannot be part of the literal.
+func closesLineEarly(s string, q QuoteInfo) bool {
+	s = strings.TrimLeft(s, " \t")
+	return hasClosingDelimPrefix(s, q) && len(s) > int(q.numChar)+q.numHash
 }
 
 // hasClosingDelimPrefix reports whether s begins with the closing delimiter
